@@ -301,8 +301,14 @@ func (rep *Report) finish() int {
 	if len(samples) == 0 {
 		samples = append(samples, map[string]interface{}{"note": "no obligations generated"})
 	}
+	knownObl := 0
+	for _, n := range knownCount {
+		knownObl += n
+	}
 	cov := map[string]interface{}{
-		"obligations": nObl, "discharged": discharged,
+		// obligations that belong to a listed known finding are reported apart: they are neither claimed nor discharged
+		"obligations": nObl - knownObl, "discharged": discharged,
+		"known_finding_obligations_not_discharged": knownObl,
 		"checker_cmd":                  "govc (VC generator over the typed Go AST of /repo) + z3-new 5.1.0 | z3 4.8.12 | cvc5 1.0.3 per obligation (see by_backend)",
 		"trusted_base":                 rep.Trusted,
 		"functions_under_contract":     under,
